@@ -66,7 +66,7 @@ ASSUMPTIONS = [
 
 def config(tier):
     if tier == "thorough":
-        return {"budget_s": 700, "run_timeout": 180, "selftest": 24}
+        return {"budget_s": 700, "run_timeout": 180, "selftest": 24, "max_runs": 8000}  # in-process runs keep ~0.3 MB each
     return {"budget_s": 50, "run_timeout": 180, "selftest": 12}
 
 
@@ -215,9 +215,17 @@ MASTER = "master"
 
 
 def execute(sim, plan):
+    warm()
+    cosim.start_tracking()
+    try:
+        _execute(sim, plan)
+    finally:
+        cosim.dispose_repos()
+
+
+def _execute(sim, plan):
     from breezy import errors
 
-    warm()
     T.quiet()
     T.settle_randomness(sim.seed)
     sim.disarm()
@@ -597,6 +605,7 @@ _warmed = []
 def warm():
     storesim.warm()
     T.quiet()
+    cosim.install_repo_tracker()
     if _warmed:
         return
     _warmed.append(1)
